@@ -168,6 +168,25 @@ def analyse_converter(model, fi, unsupported_name="OPEN_API_3_0_UNSUPPORTED") ->
     def same_key_presence(t, key) -> bool:
         return isinstance(t, ast.Compare) and isinstance(t.ops[0], ast.In) and isinstance(t.left, ast.Constant) and t.left.value == key and norm(t.comparators[0]) == "result"
 
+    def local_flows(st, call, key):
+        """value kept in a local and stored under other keys later: `v = result.pop(K)` ... `result[B] = v` / `.setdefault(B, v[0])`"""
+        if not (isinstance(st, ast.Assign) and isinstance(st.targets[0], ast.Name) and st.value is call):
+            return
+        loc = st.targets[0].id
+        for later in ast.walk(fn):
+            if isinstance(later, ast.Assign) and later.lineno > st.lineno:
+                tgs = later.targets[0].elts if isinstance(later.targets[0], ast.Tuple) else later.targets
+                vals = later.value.elts if isinstance(later.value, ast.Tuple) and isinstance(later.targets[0], ast.Tuple) else [later.value] * len(tgs)
+                for t_, v_ in zip(tgs, vals):
+                    kk = key_of_subscript(t_)
+                    if kk is not None and any(isinstance(x, ast.Name) and x.id == loc for x in ast.walk(v_)):
+                        eff.flows.append((key, kk))
+                        eff.added.setdefault(kk, later)
+            if isinstance(later, ast.Call) and getattr(later, "lineno", 0) > st.lineno and isinstance(later.func, ast.Attribute) and later.func.attr == "setdefault" and isinstance(later.func.value, ast.Name) and later.func.value.id == "result" \
+                    and len(later.args) == 2 and isinstance(later.args[0], ast.Constant) and any(isinstance(x, ast.Name) and x.id == loc for x in ast.walk(later.args[1])):
+                eff.flows.append((key, later.args[0].value))
+                eff.added.setdefault(later.args[0].value, later)
+
     for st in walk_no_nested(fn):
         if isinstance(st, ast.Assign) and isinstance(st.value, ast.Call) and isinstance(st.targets[0], ast.Name) and st.targets[0].id == "result":
             q = model.resolve_dotted(fi.module, dotted(st.value.func) or "")
@@ -216,18 +235,8 @@ def analyse_converter(model, fi, unsupported_name="OPEN_API_3_0_UNSUPPORTED") ->
                 eff.removed[f"{k}(number)"] = call
                 for a in added_here:
                     eff.flows.append((f"{k}(number)", a))
-                # value kept in a local, stored under other keys later: `value = result.pop(K)` ... `result[B], result[K] = value, True`
-                if isinstance(st, ast.Assign) and isinstance(st.targets[0], ast.Name) and st.value is call:
-                    loc = st.targets[0].id
-                    for later in ast.walk(fn):
-                        if isinstance(later, ast.Assign) and later.lineno > st.lineno:
-                            tgs = later.targets[0].elts if isinstance(later.targets[0], ast.Tuple) else later.targets
-                            vals = later.value.elts if isinstance(later.value, ast.Tuple) and isinstance(later.targets[0], ast.Tuple) else [later.value] * len(tgs)
-                            for t_, v_ in zip(tgs, vals):
-                                kk = key_of_subscript(t_)
-                                if kk is not None and any(isinstance(x, ast.Name) and x.id == loc for x in ast.walk(v_)):
-                                    eff.flows.append((f"{k}(number)", kk))
-                                    eff.added.setdefault(kk, later)
+                local_flows(st, call, f"{k}(number)")
+            local_flows(st, call, k)
             flows = [a for a in added_here if a != k or True]
             if on_all_paths:
                 eff.removed[k] = call
@@ -467,6 +476,20 @@ def check(ctx):
     except Unknown as err:
         ctx.undecided("C18.R7", f"to_open_api_3_0: guard of the type-splitting branch: {err}")
 
+    # ---------------- R10: `examples` -> `example` only when there is one
+    ctx.rule("C18.R10", "OpenAPI 3.0 has a single `example`: the first of `examples` is taken only when the list is not empty (schema(examples=[]) is accepted by the schema() API): an unguarded `[0]` raises IndexError out of the schema generation", floor=1)
+    idx10 = [n for n in ast.walk(oa.node) if isinstance(n, ast.Subscript) and isinstance(n.slice, ast.Constant) and n.slice.value == 0 and "examples" in norm(n.value)]
+    ctx.require(len(idx10) == 1, "to_open_api_3_0: `examples[0]` not found")
+    from ..pathcond import parents_of as _po10, path_condition as _pc10
+    st10 = idx10[0]
+    pm10 = _po10(oa.node)
+    while not isinstance(st10, ast.stmt):
+        st10 = pm10[st10]
+    cond10 = norm(_pc10(oa.node, st10, pm10))
+    base10 = norm(idx10[0].value)
+    guarded = any(g in cond10 for g in (f"and {base10}", f"({base10})", f"len({base10})")) or cond10.endswith(base10) or cond10 == base10
+    ctx.check(guarded, "C18.R10", "to_open_api_3_0:examples", None, f"`{short(idx10[0], 40)}` is evaluated under `{cond10}` only: with `schema(examples=[])` the key is present and the list empty - IndexError out of deserialization_schema(..., version=OPEN_API_3_0)", oa, st10, detail="first example taken only from a non-empty list")
+
     # ---------------- R9: enumerated values are kept
     ctx.rule("C18.R9", "a converter never removes a value from `enum` (or changes `const`): in OpenAPI 3.0 `nullable: true` only widens `type`, the enumeration still decides - a null taken out of `enum` is rejected by the converted schema and accepted by the 2020-12 one", floor=3)
     n9 = 0
@@ -587,4 +610,5 @@ def mutants(mb):
     mb.add_text("unsupported-list-shrunk", V, 'OPEN_API_3_0_UNSUPPORTED = [\n    "dependentRequired",\n    "unevaluatedProperties",\n    "additionalItems",\n]', 'OPEN_API_3_0_UNSUPPORTED = [\n    "dependentRequired",\n    "unevaluatedProperties",\n]', "C18.R1", "OPEN_API_3_0:additionalItems")
     mb.add_text("nullable-on-plain-copy", V, '        result.setdefault("nullable", True)\n        result["anyOf"] = [a for a in result["anyOf"] if a != {"type": "null"}]', '        any_of = [a for a in result["anyOf"] if a != {"type": "null"}]\n        if len(any_of) == 1 and "type" in any_of[0]:\n            any_of = [{**any_of[0], "nullable": True}]\n        else:\n            result.setdefault("nullable", True)\n        result["anyOf"] = any_of', "C18.R3", "node")
     mb.add_text("merged-definition-plain-dict", S, "        return JsonSchema(merged) if isinstance(write, JsonSchema) else merged\n", "        return merged\n", "C18.R3", "merged")
-    mb.add_text("neg-reordered-blocks", V, '    if "examples" in result:\n        result.setdefault("example", result.pop("examples")[0])\n    if "const" in result:\n        result.setdefault("enum", [result.pop("const")])\n', '    if "const" in result:\n        result.setdefault("enum", [result.pop("const")])\n    if "examples" in result:\n        result.setdefault("example", result.pop("examples")[0])\n', negative=True)
+    mb.add_text("neg-reordered-blocks", V, '    if "examples" in result:\n        examples = result.pop("examples")\n        if examples:  # an empty list has no first example\n            result.setdefault("example", examples[0])\n    if "const" in result:\n        result.setdefault("enum", [result.pop("const")])\n', '    if "const" in result:\n        result.setdefault("enum", [result.pop("const")])\n    if "examples" in result:\n        examples = result.pop("examples")\n        if examples:  # an empty list has no first example\n            result.setdefault("example", examples[0])\n', negative=True)
+    mb.add_text("empty-examples-indexed", V, '        examples = result.pop("examples")\n        if examples:  # an empty list has no first example\n            result.setdefault("example", examples[0])\n', '        result.setdefault("example", result.pop("examples")[0])\n', "C18.R10", "examples")
